@@ -691,3 +691,13 @@ def wavelength_ctor(u: Unit):
             continue
         f = p.st.cell(p.value).fields
         u.oblige(p, "ctor.WavelengthHandling.from_dict_reads_its_names", z3.And(to_real(f["cut_on"]) == on, to_real(f["cut_off"]) == off_, z_int(int_of(f["resolution"])) == res), {}, WAVE_REPLAY)
+
+
+def _readout_setters_atomic(u: Unit):
+    """C02.readout_setters_atomic (imported late): the limits of the readout settings hold when they are changed through their attribute, and a
+    refused change leaves the loaded value"""
+    from . import C02 as _C02
+    return _C02.readout_setters_atomic(u)
+
+
+unit("C12", "readout.setters.atomic")(_readout_setters_atomic)
